@@ -100,6 +100,12 @@ pub fn all_bound_pairs(vals: &[Idx]) -> Vec<RangeSpec> {
 
 pub const HINTS: &[Hint] = &[Hint::Exact, Hint::Low, Hint::Zero];
 
+/// size_hint shapes including loose upper bounds relative to the capacity
+pub fn hints_for(n: usize) -> Vec<Hint> {
+    let n = n as u32;
+    vec![Hint::Exact, Hint::Low, Hint::Zero, Hint::Unbounded, Hint::Over(1), Hint::Over(n), Hint::Over(2 * n), Hint::Over(3 * n + 1)]
+}
+
 fn base(n: usize, start: usize, len: usize, ops: Vec<Op>) -> Case {
     Case::simple(n, start, len, ops)
 }
@@ -138,8 +144,8 @@ pub fn mutating_ops(n: usize, len: usize, wide: bool) -> Vec<Op> {
         }
     }
     for m in 0..=(2 * n + 1) as u32 {
-        for h in HINTS {
-            ops.push(Op::Extend(m, *h));
+        for h in hints_for(n) {
+            ops.push(Op::Extend(m, h));
         }
         ops.push(Op::ExtendFromSlice(m));
     }
@@ -202,8 +208,38 @@ pub fn readonly_ops(n: usize, len: usize, wide: bool) -> Vec<Op> {
     ops
 }
 
+/// Follow-up operations that expose internal state a plain read-back cannot see (for example a
+/// wrong front position while the buffer is empty).
+pub fn probes() -> Vec<Vec<Op>> {
+    vec![
+        vec![Op::PushBack, Op::PushBack],
+        vec![Op::PushFront, Op::PushFront],
+        vec![Op::PopBack, Op::PushFront, Op::PushBack],
+        vec![Op::PopFront, Op::PushBack, Op::PushFront],
+        vec![Op::ExtendFromSlice(2), Op::PopFront],
+        vec![Op::MakeContiguous, Op::PushBack],
+        vec![Op::Drain(canonical(0, 1), vec![Step::NextBack], End::Drop), Op::PushFront],
+        vec![Op::Remove(Idx::At(0)), Op::PushBack, Op::Remove(Idx::FromEnd(1))],
+        vec![Op::TruncateFront(Idx::At(1)), Op::PushFront, Op::PushBack],
+    ]
+}
+
 pub fn c01(n: usize, start: usize, len: usize) -> Vec<Case> {
-    mutating_ops(n, len, false).into_iter().map(|op| base(n, start, len, vec![op])).collect()
+    let mut out: Vec<Case> = mutating_ops(n, len, false).into_iter().map(|op| base(n, start, len, vec![op])).collect();
+    // two cooperating steps: every mutator followed by every probe, for the smaller capacities
+    if n <= 5 {
+        for op in mutating_ops(n, len, false) {
+            if matches!(op, Op::Set(..) | Op::Mutate(..) | Op::Swap(..)) {
+                continue;
+            }
+            for p in probes() {
+                let mut v = vec![op.clone()];
+                v.extend(p);
+                out.push(base(n, start, len, v));
+            }
+        }
+    }
+    out
 }
 
 pub fn c02(n: usize, start: usize, len: usize) -> Vec<Case> {
@@ -468,6 +504,41 @@ pub fn c08(n: usize, start: usize, len: usize) -> Vec<Case> {
     for s in scripts_of_len(len + 2) {
         out.push(base(n, start, len, vec![Op::IntoIter(s)]));
     }
+    // the iterator methods that have default implementations today (a hand-written override must
+    // stay correct): nth, nth_back, count, last, fold, rev at every offset
+    for kind in [IterKind::Iter, IterKind::IterMut, IterKind::Range(RangeSpec::full()), IterKind::RangeMut(RangeSpec::full())] {
+        for k in 0..=(len + 1) as u8 {
+            for pre in [vec![], vec![Step::Next], vec![Step::NextBack], vec![Step::Next, Step::NextBack]] {
+                for tail in [vec![Step::Nth(k), Step::Next, Step::NextBack], vec![Step::NthBack(k), Step::NextBack, Step::Next], vec![Step::Nth(k), Step::NthBack(k)]] {
+                    let mut s = pre.clone();
+                    s.extend(tail);
+                    out.push(base(n, start, len, vec![Op::IterScript(kind, s)]));
+                }
+            }
+        }
+        for pre in [vec![], vec![Step::Next], vec![Step::NextBack], vec![Step::Next, Step::NextBack, Step::Next]] {
+            for t in [Step::Count, Step::Last, Step::Fold, Step::RevCollect, Step::Dbg] {
+                let mut s = pre.clone();
+                s.push(t);
+                s.push(Step::Next);
+                out.push(base(n, start, len, vec![Op::IterScript(kind, s)]));
+            }
+        }
+    }
+    for k in 0..=(len + 1) as u8 {
+        for pre in [vec![], vec![Step::Next], vec![Step::NextBack]] {
+            for t in [Step::Nth(k), Step::NthBack(k)] {
+                let mut s = pre.clone();
+                s.push(t);
+                s.push(Step::Next);
+                s.push(Step::NextBack);
+                out.push(base(n, start, len, vec![Op::IntoIter(s)]));
+            }
+        }
+    }
+    for t in [Step::Count, Step::Last, Step::Fold, Step::RevCollect, Step::Dbg] {
+        out.push(base(n, start, len, vec![Op::IntoIter(vec![Step::Next, t])]));
+    }
     // clone / len at every point of a script
     for s in scripts_of_len(len.min(4)) {
         for at in 0..=s.len() {
@@ -534,8 +605,8 @@ pub fn c12(n: usize, start: usize, len: usize) -> Vec<Case> {
                 if n <= crate::deq::FROM_ARRAY_MAX_N && m as usize <= crate::deq::FROM_ARRAY_MAX_M {
                     ops.push(Op::FromArray(m));
                 }
-                for h in HINTS {
-                    ops.push(Op::FromIter(m, *h));
+                for h in hints_for(n) {
+                    ops.push(Op::FromIter(m, h));
                 }
             }
             for op in ops {
